@@ -487,7 +487,8 @@ class C18Check(object):
         from checks import common
 
         script = os.path.join(env.VERIF_ROOT, "checks", "c18_fresh.py")
-        for req, val in eng.model_requests[:2]:
+        reqs = sorted(eng.model_requests, key=lambda rv: 0 if rv[0]["assembler"] == "fmm" else 1)
+        for req, val in reqs[: (1 if self.tier == "quick" else 2)]:
             with tempfile.TemporaryDirectory(prefix="c18fresh", dir=env.scratch_dir()) as d:
                 rp = os.path.join(d, "req.json")
                 op = os.path.join(d, "out.npy")
@@ -631,7 +632,7 @@ def main(argv=None):
         chk = factory()
         chk.tier = args.tier
         return runner.print_digests(chk, runner.parse_runs(args.digests), args.repeat)
-    runs = args.runs if args.runs is not None else (480 if args.tier == "quick" else 20000)
+    runs = args.runs if args.runs is not None else (320 if args.tier == "quick" else 20000)
     return runner.run(factory, PROP, args.tier, runs, nworkers=args.workers)
 
 
